@@ -271,6 +271,30 @@ def inventory(repo):
     return out
 
 
+def malloc_inventory(repo):
+    """every heap temporary of the kernels: file|function|variable|element type|element count expression"""
+    cdir = os.path.join(repo, "c")
+    out = []
+    for f in sorted(os.listdir(cdir)):
+        if not f.endswith((".c", ".cpp")):
+            continue
+        src = strip_comments(open(os.path.join(cdir, f)).read())
+        funcs = functions(src)
+        for m in re.finditer(r"([A-Za-z_]\w*)\s*=\s*(?:\([^;=]*?\)\s*)?malloc\s*\(", src):
+            close = match_brace(src, m.end() - 1, "(", ")")
+            arg = re.sub(r"\s+", " ", src[m.end():close]).strip()
+            mm = re.match(r"sizeof\s*\(([^)]*(?:\[[^\]]*\])*[^)]*)\)\s*\*\s*(.*)$", arg)
+            etype, count = (mm.group(1).strip(), mm.group(2).strip()) if mm else ("?", arg)
+            fn = None
+            for name, a, b, hdr in funcs:
+                if a < m.start() < b:
+                    fn = name
+            out.append({"file": "c/" + f, "line": src.count("\n", 0, m.start()) + 1, "function": fn, "var": m.group(1),
+                        "elem": etype, "count": count, "key": "c/%s|%s|%s|%s|%s" % (f, fn, m.group(1), etype, count)})
+    out.sort(key=lambda r: (r["file"], r["line"]))
+    return out
+
+
 def key(rec):
     """what the model is pinned to: everything except line numbers"""
     return "%s|%s|%s|%s|%s|private(%s)|if(%s)|%s|%s" % (
@@ -284,5 +308,5 @@ if __name__ == "__main__":
     inv = inventory(repo)
     for r in inv:
         r["key"] = key(r)
-    json.dump(inv, sys.stdout, indent=1)
+    json.dump({"pragmas": inv, "mallocs": malloc_inventory(repo)}, sys.stdout, indent=1)
     print()
